@@ -101,9 +101,9 @@ func c07Prec(op string) int {
 	return 1
 }
 
-func fbits(f float64) string { return fmt.Sprintf("f:%016x", math.Float64bits(f)) }
+func c07Fbits(f float64) string { return fmt.Sprintf("f:%016x", math.Float64bits(f)) }
 
-func litText(f float64) string { return strconv.FormatFloat(f, 'f', -1, 64) }
+func c07LitText(f float64) string { return strconv.FormatFloat(f, 'f', -1, 64) }
 
 func (a *c07Arg) sql(q *c07Query, parentPrec int, right bool) string {
 	switch a.kind {
@@ -112,7 +112,7 @@ func (a *c07Arg) sql(q *c07Query, parentPrec int, right bool) string {
 	case "star":
 		return "*"
 	case "lit":
-		return litText(a.lit)
+		return c07LitText(a.lit)
 	}
 	p := c07Prec(a.op)
 	sep := " "
@@ -133,7 +133,7 @@ func (a *c07Arg) toks() []string {
 	case "star":
 		return []string{"star"}
 	case "lit":
-		return []string{"lit", fbits(a.lit)}
+		return []string{"lit", c07Fbits(a.lit)}
 	}
 	return append(append([]string{"bin", a.op}, a.l.toks()...), a.r.toks()...)
 }
@@ -148,7 +148,7 @@ func (e *c07Expr) sql(q *c07Query, parentPrec int, right bool) string {
 		}
 		s = fn + "(" + e.arg.sql(q, 0, false) + ")"
 	case "lit":
-		s = litText(e.lit)
+		s = c07LitText(e.lit)
 	case "ref":
 		s = e.name
 	default:
@@ -173,7 +173,7 @@ func (e *c07Expr) toks() []string {
 	case "agg":
 		return append([]string{"agg", e.fn}, e.arg.toks()...)
 	case "lit":
-		return []string{"lit", fbits(e.lit)}
+		return []string{"lit", c07Fbits(e.lit)}
 	case "ref":
 		return []string{"ref", hx(e.name)}
 	}
@@ -673,7 +673,7 @@ func (c07) Gen(rng *rand.Rand, tier string, idx int) Case {
 		for _, r := range rows {
 			t = append(t, "s:"+hx(r.d))
 			for _, v := range r.vals {
-				t = append(t, fbits(v))
+				t = append(t, c07Fbits(v))
 			}
 		}
 		return t
@@ -747,13 +747,13 @@ func c07ValTok(v interface{}) string {
 	case nil:
 		return "n"
 	case float64:
-		return fbits(x)
+		return c07Fbits(x)
 	case float32:
-		return fbits(float64(x))
+		return c07Fbits(float64(x))
 	case int:
-		return fbits(float64(x))
+		return c07Fbits(float64(x))
 	case int64:
-		return fbits(float64(x))
+		return c07Fbits(float64(x))
 	case string:
 		return "s:" + hx(x)
 	case bool:
